@@ -259,3 +259,20 @@ func (g *Grid) ExpectedRecords() [][]string {
 	}
 	return recs
 }
+
+// WideGrids: tables crossing the 10-column mark (the core pre-allocates 10 column slots).
+func WideGrids() []*Grid {
+	mk := func(n int, pfx string) []string {
+		out := make([]string, n)
+		for i := range out {
+			out[i] = fmt.Sprintf("%s%d", pfx, i+1)
+		}
+		return out
+	}
+	return []*Grid{
+		{HasHeader: true, Header: mk(11, "h"), Rows: []GridRow{{Cells: mk(11, "a")}, {Sep: true}, {Cells: mk(3, "b")}, {Cells: []string{}}}},
+		{HasHeader: true, Header: mk(12, "h"), Rows: []GridRow{{Cells: mk(9, "a")}, {Cells: mk(12, "b")}}},
+		{Rows: []GridRow{{Cells: mk(2, "a")}, {Cells: mk(13, "b")}, {Cells: mk(10, "c")}}},
+		{HasHeader: true, Header: mk(10, "h"), HeaderLast: true, Rows: []GridRow{{Cells: mk(10, "a")}, {Cells: mk(10, "b")}}},
+	}
+}
